@@ -5,7 +5,6 @@ package modsim
 import (
 	"context"
 	"encoding/json"
-	"errors"
 	"fmt"
 	"os"
 	"runtime"
@@ -17,46 +16,6 @@ import (
 	"github.com/safing/portbase/log"
 	"github.com/safing/portbase/modules"
 )
-
-// CustomErr is the "custom error type" panic value.
-type CustomErr struct{ Code int }
-
-func (c CustomErr) Error() string { return fmt.Sprintf("custom error %d", c.Code) }
-
-// PlainStruct is the "arbitrary struct" panic value.
-type PlainStruct struct {
-	A int
-	B string
-}
-
-var errBoom = errors.New("boom-err")
-
-// panicNow panics with a value of the given kind. Its name is looked for in stack traces.
-//
-//go:noinline
-func panicNow(kind string) {
-	switch kind {
-	case "nil":
-		panic(nil) //nolint
-	case "error":
-		panic(errBoom)
-	case "string":
-		panic("boom-string")
-	case "runtime":
-		var a []int
-		idx := 5
-		_ = a[idx]
-	case "nilderef":
-		var p *PlainStruct
-		_ = p.A
-	case "struct":
-		panic(PlainStruct{A: 7, B: "x"})
-	case "custom":
-		panic(CustomErr{Code: 42})
-	default:
-		panic("unknown panic kind " + kind)
-	}
-}
 
 type child struct {
 	sc    *Scenario
@@ -74,7 +33,7 @@ type child struct {
 	workMod  map[int]string
 	tasks    map[int]*modules.Task
 
-	inFlight int32 // lifecycle callbacks currently running
+	inFlight int32    // lifecycle callbacks currently running
 	started  sync.Map // module name -> true once its start routine succeeded
 
 	arrivals sync.Map // point|ctx -> *int32
@@ -125,7 +84,7 @@ func (c *child) lifecycle(mod, phase string, cb Callback) func() error {
 			return fmt.Errorf("%s of %s failed on purpose", phase, mod)
 		case "panic":
 			outcome = "panic"
-			panicNow(cb.Panic)
+			PanicNow(cb.Panic)
 		}
 		if phase == "start" {
 			c.started.Store(mod, true)
@@ -169,7 +128,7 @@ func renderReport(me *modules.ModuleError) *Report {
 		PanicValue: fmt.Sprintf("%v", me.PanicValue),
 		PanicType:  fmt.Sprintf("%T", me.PanicValue),
 		HasStack:   len(me.StackTrace) > 0,
-		StackNames: strings.Contains(me.StackTrace, "panicNow"),
+		StackNames: strings.Contains(me.StackTrace, "PanicNow"),
 		Message:    me.Message,
 	}
 	ok, _ := modules.IsPanic(me)
@@ -196,7 +155,7 @@ func (c *child) workFn(mod string, w *Work) func(ctx context.Context) error {
 			hold(w.HoldUS)
 		}
 		if w.Panic != "" && n == 1 {
-			panicNow(w.Panic)
+			PanicNow(w.Panic)
 		}
 		return nil
 	}
